@@ -286,6 +286,12 @@ theorem empty_publish_is_seen :
     valuesOk emptyFirst = false ∧ (events emptyFirst).map (·.2) = [.empty, .new] ∧
     valuesOk publishWhileFilling = false ∧ (events publishWhileFilling).map (·.2) = [.filling] := by decide
 
+/-- **health_change_is_one_atomic_step**: MOSN keeps no derived healthy-host set — `hostSet` holds only the immutable list
+and `Health()` reads the per-address flag word on every probe (both regenerated) — so a health change is one atomic word
+update (a `flip` operation of `history`) and there is no rebuild-then-swap window in which a lookup could see a half-built
+healthy set. A cached healthy list added to `hostSet` breaks this theorem (=> the tie is reported broken). -/
+theorem health_change_is_one_atomic_step : healthIsWordRead = true ∧ hostSetExtraFields = 0 := by decide
+
 end PublicationValues
 
 /-! ## which host OBJECT the cluster carries for an address
